@@ -103,7 +103,7 @@ func init() {
 	register(&Check{
 		ID:    "C08",
 		Level: "exploration",
-		Rule: "exhaustive enumeration of source texts: (1) all sequences of <= k tokens over a 66-token alphabet (one representative per parser-relevant class, incl. truncated strings/comments/regex literals) in each of 14 grammatical contexts; (2) every byte prefix and every token prefix of every corpus program (docs/examples, every source compiled by the repository's tests, generated programs covering each production); (3) every one-token deletion, duplication, adjacent swap and substitution by each alphabet token of those programs; (4) every regex-literal body of <= m chars over a 24-char alphabet and every string-literal body of <= 5 chars over {backslash, x, 0, G, both quotes, blank, newline} in both quote styles; (5) every byte string of length <= 2 (thorough 3 over a 40-byte subset); (6) 32 templates with a count in every numeric position of the language (loop bounds, nested loops, amounts, regex {n,m}, process numbers) x 16 count values from 0 to 10^30 incl. 2^31, 2^32, 2^63-1, 2^63, 2^64 (pairs for two-position templates), one source per unit; " +
+		Rule: "exhaustive enumeration of source texts: (1) all sequences of <= k tokens over a 66-token alphabet (one representative per parser-relevant class, incl. truncated strings/comments/regex literals) in each of 14 grammatical contexts; (2) every byte prefix and every token prefix of every corpus program (docs/examples, every source compiled by the repository's tests, generated programs covering each production); (3) every one-token deletion, duplication, adjacent swap and substitution by each alphabet token of those programs; (4) every regex-literal body of <= m chars over a 24-char alphabet and every string-literal body of <= 5 chars over {backslash, x, 0, G, both quotes, blank, newline} in both quote styles; (5) every byte string of length <= 2 (thorough 3 over a 40-byte subset); (6) 32 templates with a count in every numeric position of the language (loop bounds, nested loops, amounts, regex {n,m}, process numbers) x 16 count values from 0 to 10^30 incl. 2^31, 2^32, 2^63-1, 2^63, 2^64 (pairs for two-position templates), one source per unit; (7) 44 families of nested / chained constructs (operator chains, parentheses, if / loop blocks, groups, loops, subroutines, captures, regex groups and alternations, long comments, many commands) at sizes 8..256, one source per unit; " +
 			"oracle: program xor error, error printable, no panic, no hang (20 s / 2 GiB watchdog), accepted tree has no nil node and every command generated; non-trivial = distinct sources that Compile rejects with an error or accepts after a non-trivial parse (all sources are distinct by construction; counted: sources with >= 2 tokens)",
 		Assume: []string{"time/memory bound is decided as: within 20 s and 2 GiB per source on the enumerated short sources"},
 		Budget: map[string]int{"quick": 150, "thorough": 1500},
@@ -330,6 +330,31 @@ func runC08(c *Ctx) {
 			}
 		}
 	}
+	// (7) depth and length: every nesting / chaining construct at sizes 8..256 (the cost of compiling
+	// must not explode with the depth of an expression, a group, a loop or a block)
+	if c.Level("depth") {
+		for _, src := range c08DeepSources() {
+			src := src
+			if !c.Unit(func() string { return fmt.Sprintf("depth: Compile(%.60q.. %d bytes)", src, len(src)) }) {
+				continue
+			}
+			c.Eval(1)
+			c.Nontrivial(1)
+			class, msg, accepted := totalCompile(src)
+			if accepted {
+				c.Count("accepted", 1)
+				c.Count("deep_sources_accepted", 1)
+			}
+			if class != "" {
+				c.Violation(class, trunc(msg, 400), map[string]any{"kind": "compile", "src": src})
+				c.Outcome(class)
+			} else if accepted {
+				c.Outcome("accepted")
+			} else {
+				c.Outcome("rejected")
+			}
+		}
+	}
 	// (5) raw bytes
 	if c.Level("bytes:len<=2") {
 		b.label = "bytes"
@@ -388,6 +413,43 @@ func c08CountSources() []string {
 				out = append(out, r)
 			}
 		}
+	}
+	return out
+}
+
+// c08DeepSources: each family at sizes 8, 16, 32, 64, 128, 256.
+func c08DeepSources() []string {
+	rep := strings.Repeat
+	var out []string
+	for _, n := range []int{8, 16, 32, 64, 128, 256} {
+		chain := func(operand, op string) string { return operand + rep(" "+op+" "+operand, n) }
+		for _, e := range []string{chain("1", "+"), chain("match", "+"), chain("1", "*"), chain("true", "and"), chain("matchLength", "-"), chain("1", "=="), chain("'a'", "+"),
+			rep("(", n) + "1" + rep(" + 1)", n), rep("(", n) + "1" + rep(")", n), rep("not ", n) + "true", rep("head ", n) + "match", "1" + rep(" + (2", n) + rep(")", n)} {
+			out = append(out, "set f to transform return "+e+" end\nreplace all 'a' with f")
+			out = append(out, "set p to pattern 'a' begin return "+e+" == 1 end\nfind all p")
+		}
+		out = append(out,
+			"set f to transform "+rep("if true then ", n)+"return 1 "+rep("end ", n)+"return 2 end\nreplace all 'a' with f",
+			"set f to transform set i to 0 "+rep("loop ", n)+"set i to i + 1 "+rep("break end ", n)+"return i end\nreplace all 'a' with f",
+			"set f to transform "+rep("set v to 1 ", n)+"return v end\nreplace all 'a' with f",
+			"find all "+rep("(", n)+"'a'"+rep(")", n),
+			"find all "+rep("maybe ", n)+"'a'",
+			"find all "+rep("at least 1 (", n)+"'a'"+rep(")", n),
+			"find all 'a'"+rep(" or 'b'", n),
+			"find all "+rep("'a' ", n),
+			"find all in 'a'"+rep(", 'b'", n),
+			"find all "+rep("{", n)+"'a'"+rep("} = s", n),
+			"find all "+rep("('a' = x", n)+rep(")", n),
+			"find all @/"+rep("(", n)+"a"+rep(")", n)+"/",
+			"find all @/"+rep("(?:a|", n)+"b"+rep(")", n)+"/",
+			"find all @/a"+rep("|b", n)+"/",
+			"find all @/"+rep("a?", n)+"/",
+			"find all @/"+rep("[ab]", n)+"/",
+			"find all 'a' -- "+rep("c", n*16)+"\n 'b'",
+			"find all 'a' --("+rep("(c) ", n*16)+")-- 'b'",
+			rep("set p to pattern 'a'\n", n)+"find all p",
+			rep("find all 'a'\n", n),
+		)
 	}
 	return out
 }
